@@ -248,7 +248,8 @@ def register(PROPS, COMPONENTS):
         names.append(cname)
     PROPS["C07"] = dict(
         lean_files=["ConcVerif/Props/C07.lean", "ConcVerif/Props/C07_lr.lean", "ConcVerif/Props/C07_tripwire.lean",
-                    "ConcVerif/Props/C07_deferred.lean", "ConcVerif/Props/C07_trigger.lean", "ConcVerif/Props/C07_rcu.lean"],
+                    "ConcVerif/Props/C07_deferred.lean", "ConcVerif/Props/C07_trigger.lean", "ConcVerif/Props/C07_rcu.lean",
+                    "ConcVerif/Props/C07_cow.lean"],
         components=names, stage="B", pre=selftest_hb,
         level_text="Lean 4 theorems (kernel-checked; any number of threads, locations and events) over a generic event model of "
                    "mutex / shared-mutex / condition-variable / atomic (with the memory order written in the source) / plain / "
@@ -286,7 +287,16 @@ def register(PROPS, COMPONENTS):
                    "record by a handle release happen-after EVERY earlier access to it by any thread (owner.store(nullptr) -> the "
                    "reclaimer's load of that owner: the happens-before content of the C05 grace period); (d) each of link store, "
                    "link load, owner store, owner load shown necessary by a concrete accepted trace that races when it is relaxed, "
-                   "the CAS by a trace in which a scanner's atomic load of owner is no longer ordered after the record's construction. "
+                   "the CAS by a trace in which a scanner's atomic load of owner is no longer ordered after the record's construction; "
+                   "cow_guarded (over every trace the cow model accepts; the model embeds the left-right model and delegates to it): "
+                   "the accepted cow trace projects to an accepted left-right trace whose happens-before image embeds into the cow "
+                   "trace's, so the left-right theorem orders every pair of conflicting accesses of m_data's two shared_ptr copies; "
+                   "the payload of a version is written only by the thread holding the writer mutex, by one thread per version, "
+                   "and every read of it (through a snapshot, or as the source of the next writer's copy) happens-after every "
+                   "write to it (writes -> program order -> the store that installs the version on a side -> left-right theorem -> "
+                   "the reader's load of that side -> program order -> the read; the release store / acquire load of "
+                   "m_readingLeft shown necessary by a racing accepted trace); the destruction of a version happens-after every "
+                   "read of it through a snapshot in happens-before EXTENDED by the shared_ptr control-block edges (assumption). "
                    "Tied to the source on every run: the unmodified headers run against substituted std primitives (and the "
                    "plain-access tap) under a deterministic scheduler; every raw trace of every client is mapped to "
                    "happens-before events using the memory orders WRITTEN IN THE SOURCE and must pass the Lean checker, so a "
@@ -307,7 +317,10 @@ def register(PROPS, COMPONENTS):
         assumptions=["std::mutex / shared_mutex / condition_variable / atomic give exactly the synchronises-with edges of Base/HB.lean",
                      "clients touch wrapped objects only through the library's handles / operations; with locking disabled "
                      "(guarded_opt(false)) the user opted out and plain accesses are not checked",
-                     "user functors / payload operations are race-free themselves"],
+                     "user functors / payload operations are race-free themselves",
+                     "cow_guarded: std::shared_ptr's control block orders the release of every reference (destruction of a snapshot "
+                     "handle) before the destruction of the managed object by the last owner (C07_cow_destroy_after_snapshot is "
+                     "stated in happens-before extended by exactly these edges)"],
         partial=["the theorem is over the operational abstraction above (SC-interleaved, declared-order clocks), not the axiomatic "
                  "C++11 model: executions with stale reads of non-seq_cst loads, load buffering or hardware reorderings are not "
                  "covered; libstdc++ internals are trusted",
@@ -321,7 +334,12 @@ def register(PROPS, COMPONENTS):
                  "about the positions before the store / after the load)",
                  "covered through the checker on OBSERVED traces only (raceFree + its soundness, every run): deferred_guarded's "
                  "wrapped object, DualMappedVector/SearchableObjectHolder/DelayedObjects, the read->write half of "
-                 "the TripWire client data; cow_guarded: nothing model-level is claimed here",
+                 "the TripWire client data",
+                 "cow_guarded: C07_cow_destroy_after_snapshot is relative to the control-block edges (the destruction of a "
+                 "snapshot handle happens-before the destruction of the managed object by the last owner: libstdc++'s use-count "
+                 "decrement is not traced, stated as the relation CBedge); not model-level: destruction vs. the reads made through "
+                 "the left-right read handle inside lock() (the source of a copy), destruction vs. the writer's own accesses, "
+                 "the reference the two sides hold (released inside the assignment windows at a moment the trace does not show)",
                  "rcu_list: the model-level theorems C07_rcu_* (publication of nodes and records, reclamation of nodes and records, "
                  "necessity of the orders) are over traces that have not entered ~rcu_list: the destructor is ordered after every "
                  "other use by the client (in the harness: the joins), as for any object, and its accesses are checked on the "
